@@ -60,9 +60,13 @@ class Linux:
     def __init__(self, tree):
         self.defs = class_defs(tree, "Process")
         self.helper_src = {}
+        self.alt_log = []        # tried-first files met while the sources of a method were collected
         for name, fn in self.defs.items():
             if has_deco(fn, "memoize_when_activated"):
-                self.helper_src[name] = self._direct_sources(fn)[0]
+                try:
+                    self.helper_src[name] = self._direct_sources(fn)[0]
+                except NotRecognised:
+                    self.helper_src[name] = "?" + name      # not "one helper, one file": the token is dropped, cfg_lists_complete fails
 
     def _direct_sources(self, fn):
         out = []
@@ -78,9 +82,9 @@ class Linux:
         return [s for _, _, s in out]
 
     def sources(self, name, depth=0):
-        """Ordered list of sources read by platform method `name`, following self-calls; a call in a
-        `try` whose handler catches FileNotFoundError is replaced by the handler's path (the
-        modelled world has no smaps_rollup file)."""
+        """Ordered list of sources read by platform method `name`, following self-calls. `try: <read A> except
+        (…, FileNotFoundError): <read B>` contributes B (the fallback) to the list and A to `self.alt_log` (the
+        file tried first: fact methAlt; the model reads A instead of B in a world where A can be opened)."""
         if depth > 4 or name not in self.defs:
             raise NotRecognised("platform method %s not found" % name)
         fn = self.defs[name]
@@ -114,6 +118,8 @@ class Linux:
                             out.append(self.helper_src[a])
                         elif a in self.defs and not a.startswith("_raise") and a != "_is_zombie":
                             out.extend(self.sources(a, depth + 1))
+                        elif a.startswith("_") and a not in self.defs and not a.startswith("_raise"):
+                            pass
 
         def visit(stmts, out):
             for st in stmts:
@@ -121,10 +127,19 @@ class Linux:
                     continue
                 if isinstance(st, ast.Try):
                     if any(self._catches_enoent(h) for h in st.handlers):
-                        # modelled world: the tried file (smaps_rollup) does not exist -> handler path
+                        tried, fallback = [], []
+                        visit(st.body, tried)
                         for h in st.handlers:
                             if self._catches_enoent(h):
-                                visit(h.body, out)
+                                visit(h.body, fallback)
+                        if tried == fallback or not tried:
+                            out.extend(fallback)
+                        elif len(tried) == 1 and fallback:
+                            self.alt_log.append((tried[0], fallback[0]))
+                            out.extend(fallback)
+                        else:
+                            # shape not modelled (several files tried, or no fallback read): report what is tried, in order
+                            out.extend(tried + fallback)
                     else:
                         visit(st.body, out)
                     visit(st.orelse, out)
@@ -201,25 +216,33 @@ class Front:
         return front, guard, plat
 
     def oneshot_facts(self):
+        """Total: every shape yields values (a shape the model does not know gives `false` / empty lists, the
+        obligations then fail); only a missing `oneshot` raises."""
         fn = self.defs["oneshot"]
-        if not (len(fn.body) >= 1 and isinstance(fn.body[-1], ast.With)):
-            raise NotRecognised("oneshot: no with-statement")
-        w = fn.body[-1]
-        under_lock = any(extract.dotted(i.context_expr) == "self._lock" for i in w.items)
-        ifs = [s for s in w.body if isinstance(s, ast.If)]
-        if len(ifs) != 1:
-            raise NotRecognised("oneshot: nesting test not found")
-        test = ifs[0]
-        nested = (isinstance(test.test, ast.Call) and extract.dotted(test.test.func) == "hasattr"
-                  and len(test.test.args) == 2 and extract.dotted(test.test.args[0]) == "self"
-                  and extract.const(test.test.args[1]) == "_cache"
-                  and any(isinstance(x, ast.Yield) for s in test.body for x in ast.walk(s))
-                  and not any(isinstance(x, ast.Call) and extract.dotted(x.func).endswith("cache_activate")
-                              for s in test.body for x in ast.walk(s)))
-        tries = [s for s in test.orelse if isinstance(s, ast.Try)]
-        if len(tries) != 1:
-            raise NotRecognised("oneshot: try/finally not found")
-        t = tries[0]
+
+        def is_hasattr_cache(t):
+            return (isinstance(t, ast.Call) and extract.dotted(t.func) == "hasattr" and len(t.args) == 2
+                    and extract.dotted(t.args[0]) == "self" and extract.const(t.args[1]) == "_cache")
+        hifs = [n for n in self._ordered(fn) if isinstance(n, ast.If) and is_hasattr_cache(n.test)]
+        hif = hifs[0] if len(hifs) == 1 else None
+        # the nested branch is exactly "yield": no call of any kind (no activation, no deactivation, no oneshot_exit)
+        nested = (hif is not None
+                  and any(isinstance(x, ast.Yield) for s in hif.body for x in ast.walk(s))
+                  and not any(isinstance(x, ast.Call) for s in hif.body for x in ast.walk(s))
+                  and not any(isinstance(x, (ast.Try, ast.With)) for s in hif.body for x in ast.walk(s)))
+        scope = hif.orelse if hif is not None else fn.body
+        tries = [n for s in scope for n in self._ordered(s) if isinstance(n, ast.Try)
+                 and any(isinstance(x, ast.Yield) for b in n.body for x in ast.walk(b))]
+        t = tries[0] if len(tries) == 1 else None
+        anchor = hif or t
+        under_lock = False
+        for w in ast.walk(fn):
+            if isinstance(w, ast.With) and any(extract.dotted(i.context_expr) == "self._lock" for i in w.items):
+                inside = [x for b in w.body for x in ast.walk(b)]
+                if anchor is not None and any(x is anchor for x in inside):
+                    under_lock = True
+                elif anchor is None and any(isinstance(x, ast.Yield) for x in inside):
+                    under_lock = True
 
         order = {}
 
@@ -237,12 +260,17 @@ class Front:
                             seq.append("proc")
             order[what] = seq
             return front, proc
-        a_front, a_proc = acts(t.body, "cache_activate")
-        d_front_body, _ = acts(t.body, "cache_deactivate")
-        d_front, d_proc = acts(t.finalbody, "cache_deactivate")
-        in_finally = bool(d_front) and not d_front_body
-        if not in_finally:
-            d_front, d_proc = acts(t.body + t.finalbody + t.orelse, "cache_deactivate")
+        if t is not None:
+            a_front, a_proc = acts(t.body, "cache_activate")
+            d_front_body, d_proc_body = acts(t.body + t.orelse + [h for hh in t.handlers for h in hh.body], "cache_deactivate")
+            d_front, d_proc = acts(t.finalbody, "cache_deactivate")
+            in_finally = (bool(d_front) or d_proc) and not d_front_body and not d_proc_body
+            if not in_finally:
+                d_front, d_proc = acts(t.body + t.orelse + t.finalbody, "cache_deactivate")
+        else:
+            a_front, a_proc = acts(scope, "cache_activate")
+            d_front, d_proc = acts(scope, "cache_deactivate")
+            in_finally = False
         return {"underLock": under_lock, "nestedTest": nested, "exitInFinally": in_finally,
                 "frontActivate": a_front, "frontDeactivate": d_front, "procEnter": a_proc, "procExit": d_proc,
                 "actOrder": order["cache_activate"], "deactOrder": order["cache_deactivate"]}
@@ -255,7 +283,7 @@ class Front:
 
     def as_dict_facts(self):
         fn = self.defs["as_dict"]
-        idx_val = idx_with = None
+        idx_val = idx_with = with_node = None
         empty_all = False
         for i, st in enumerate(fn.body):
             if isinstance(st, ast.If) and idx_val is None:
@@ -270,8 +298,7 @@ class Front:
                 ops = [extract.dotted(v) for v in st.value.values]
                 if ops == ["attrs", "valid_names"]:
                     empty_all = True
-        if idx_with is None:
-            raise NotRecognised("as_dict: `with self.oneshot()` not found")
+        with_node = with_node if idx_with is not None else fn
         catches, ni = [], False
         for t in ast.walk(with_node):
             if isinstance(t, ast.Try):
@@ -293,113 +320,172 @@ class Front:
                 t = n.args[1]
                 coll = [extract.dotted(e) for e in (t.elts if isinstance(t, ast.Tuple) else [t])]
         if coll is None:
-            raise NotRecognised("as_dict: isinstance(attrs, ...) test not found")
-        return {"validatesFirst": idx_val is not None and idx_val < idx_with, "adCatches": catches,
+            coll = []          # no isinstance(attrs, …) test at all: nothing is rejected as a non-collection
+        return {"validatesFirst": idx_val is not None and idx_with is not None and idx_val < idx_with,
+                "usesOneshot": idx_with is not None, "adCatches": catches,
                 "notImplSkips": ni, "emptyMeansAll": empty_all, "collectionTypes": coll}
 
 
-def wrapper_facts(common_tree):
-    deco = extract.find_def(common_tree, "memoize_when_activated")
-    inner = {n.name: n for n in deco.body if isinstance(n, ast.FunctionDef)}
-    for need in ("wrapper", "cache_activate", "cache_deactivate"):
-        if need not in inner:
-            raise NotRecognised("memoize_when_activated.%s not found" % need)
-    w = inner["wrapper"]
-    # the store `X[fun] = ret`: is X a re-loaded `self._cache` or a local holding the dict looked up?
-    stores = []
-    for n in ast.walk(w):
-        targets = []
-        if isinstance(n, ast.Assign):
-            targets = n.targets
-        for t in targets:
-            if isinstance(t, ast.Subscript) and extract.dotted(t.slice) == "fun":
-                stores.append((n, t))
-    if len(stores) != 1:
-        raise NotRecognised("wrapper: expected exactly one `...[fun] = ...` store, found %d" % len(stores))
-    st_node, tgt = stores[0]
-    base = extract.dotted(tgt.value)
-    if base == "self._cache":
-        reloads = True
-    elif isinstance(tgt.value, ast.Name):
-        reloads = False
-    else:
-        raise NotRecognised("wrapper: store base %s" % base)
-    # is the store inside a try that catches AttributeError?
-    guard = False
-    for t in ast.walk(w):
-        if isinstance(t, ast.Try) and any(s is st_node for s in t.body):
-            for h in t.handlers:
-                names = [extract.dotted(e) for e in (h.type.elts if isinstance(h.type, ast.Tuple) else [h.type])] if h.type else []
-                if "AttributeError" in names and all(isinstance(s, ast.Pass) for s in h.body):
-                    guard = True
-    # the lookup: must handle AttributeError (case 2) and KeyError (case 3)
-    handled = set()
-    for t in ast.walk(w):
-        if isinstance(t, ast.Try):
-            for h in t.handlers:
-                if h.type is not None:
-                    for e in (h.type.elts if isinstance(h.type, ast.Tuple) else [h.type]):
-                        handled.add(extract.dotted(e))
-    if "AttributeError" not in handled or "KeyError" not in handled:
-        raise NotRecognised("wrapper: lookup does not handle AttributeError and KeyError")
-    d = inner["cache_deactivate"]
-    del_guard = False
-    for t in ast.walk(d):
-        if isinstance(t, ast.Try) and any(isinstance(s, ast.Delete) for s in t.body):
-            for h in t.handlers:
-                if h.type is not None and extract.dotted(h.type) == "AttributeError" and all(isinstance(s, ast.Pass) for s in h.body):
-                    del_guard = True
-    if not any(isinstance(s, ast.Delete) for s in ast.walk(d)):
-        raise NotRecognised("cache_deactivate: no del")
-    a = inner["cache_activate"]
+def _handler_names(h):
+    if h.type is None:
+        return ["BaseException"]
+    return [extract.dotted(e) for e in (h.type.elts if isinstance(h.type, ast.Tuple) else [h.type])]
 
-    def is_ident_call(n):
+
+class Wrapper:
+    """memoize_when_activated: each fact has its own extractor (a failure of one skips that fact only), and each
+    extractor answers with a VALUE for every shape it can describe (an unknown shape gives the value that makes the
+    obligation fail) instead of raising."""
+
+    def __init__(self, common_tree):
+        deco = extract.find_def(common_tree, "memoize_when_activated")
+        self.inner = {n.name: n for n in deco.body if isinstance(n, ast.FunctionDef)}
+
+    def part(self, name):
+        if name not in self.inner:
+            raise NotRecognised("memoize_when_activated.%s not found" % name)
+        return self.inner[name]
+
+    # ---- the case-3 store
+    def _stores(self):
+        w = self.part("wrapper")
+        out = []
+        for n in ast.walk(w):
+            if isinstance(n, ast.Assign):
+                for t in n.targets:
+                    if isinstance(t, ast.Subscript) and extract.dotted(t.slice) == "fun":
+                        out.append((n, t))
+        return out
+
+    def _load(self):
+        """(owner local or None, dict local or None, statement index in wrapper.body) of `… = self._cache`"""
+        w = self.part("wrapper")
+        for i, st in enumerate(w.body):
+            for n in ast.walk(st):
+                if isinstance(n, ast.Assign) and extract.dotted(n.value) == "self._cache":
+                    t = n.targets[0]
+                    if isinstance(t, ast.Tuple) and len(t.elts) == 2 and all(isinstance(e, ast.Name) for e in t.elts):
+                        return t.elts[0].id, t.elts[1].id, i
+                    if isinstance(t, ast.Name):
+                        return None, t.id, i
+                    return None, None, i
+        return None, None, None
+
+    def store_reloads(self):
+        stores = self._stores()
+        if len(stores) != 1:
+            raise NotRecognised("wrapper: expected exactly one `...[fun] = ...` store, found %d" % len(stores))
+        _, tgt = stores[0]
+        if extract.dotted(tgt.value) == "self._cache":
+            return True
+        _, dict_local, _ = self._load()
+        # a local: the store goes into the dict that was looked up iff it is the local bound from `self._cache`
+        return not (isinstance(tgt.value, ast.Name) and dict_local is not None and tgt.value.id == dict_local)
+
+    def store_guard(self):
+        stores = self._stores()
+        if len(stores) != 1:
+            raise NotRecognised("wrapper: expected exactly one `...[fun] = ...` store, found %d" % len(stores))
+        st_node, _ = stores[0]
+        for t in ast.walk(self.part("wrapper")):
+            if isinstance(t, ast.Try) and any(s is st_node for s in t.body):
+                for h in t.handlers:
+                    if "AttributeError" in _handler_names(h) and all(isinstance(s, ast.Pass) for s in h.body):
+                        return True
+        return False
+
+    def lookup_handles(self):
+        """the exceptions the wrapper's try-statements catch around the attribute load / the lookup"""
+        handled = set()
+        for t in ast.walk(self.part("wrapper")):
+            if isinstance(t, ast.Try):
+                for h in t.handlers:
+                    handled.update(_handler_names(h))
+        return sorted(handled & {"AttributeError", "KeyError"})
+
+    def del_swallows(self):
+        d = self.part("cache_deactivate")
+        dels = [s for s in ast.walk(d) if isinstance(s, ast.Delete)]
+        if not dels:
+            return False          # no `del proc._cache` at all (e.g. rebinding an empty dict): not the modelled deactivation
+        for t in ast.walk(d):
+            if isinstance(t, ast.Try) and any(isinstance(s, ast.Delete) for s in t.body):
+                for h in t.handlers:
+                    if h.type is not None and "AttributeError" in _handler_names(h) \
+                            and all(isinstance(s, ast.Pass) for s in h.body):
+                        return True
+        return False
+
+    def deactivate_deletes(self):
+        d = self.part("cache_deactivate")
+        dels = [extract.dotted(t) for s in ast.walk(d) if isinstance(s, ast.Delete) for t in s.targets]
+        rebinds = [s for s in ast.walk(d) if isinstance(s, ast.Assign) and extract.dotted(s.targets[0]).endswith("._cache")]
+        return dels == ["proc._cache"] and not rebinds
+
+    # ---- the owner tag
+    @staticmethod
+    def _is_ident_call(n):
         return isinstance(n, ast.Call) and not n.args and extract.dotted(n.func).split(".")[-1] == "get_ident"
 
-    def empty_dict(n):
-        return isinstance(n, ast.Dict) and not n.keys
-    binds = [s for s in ast.walk(a) if isinstance(s, ast.Assign) and extract.dotted(s.targets[0]).endswith("._cache")]
-    if len(binds) != 1:
-        raise NotRecognised("cache_activate: expected exactly one `proc._cache = ...`")
-    val = binds[0].value
-    if empty_dict(val):
-        act_owner = False
-    elif isinstance(val, ast.Tuple) and len(val.elts) == 2 and is_ident_call(val.elts[0]) and empty_dict(val.elts[1]):
-        act_owner = True          # proc._cache = (threading.get_ident(), {})
-    else:
-        raise NotRecognised("cache_activate: does not bind a fresh dict")
-    # the wrapper's side of it: `owner, cache = self._cache` and `if owner != get_ident(): return fun(self)` BEFORE the lookup
-    unpack = None
-    for n in ast.walk(w):
-        if isinstance(n, ast.Assign) and extract.dotted(n.value) == "self._cache":
-            t = n.targets[0]
-            if isinstance(t, ast.Tuple) and len(t.elts) == 2 and all(isinstance(e, ast.Name) for e in t.elts):
-                unpack = (t.elts[0].id, t.elts[1].id, n.lineno)
-            elif isinstance(t, ast.Name):
-                unpack = (None, t.id, n.lineno)
-            else:
-                raise NotRecognised("wrapper: `... = self._cache` target not recognised")
-    if unpack is None:
-        if not reloads:
-            raise NotRecognised("wrapper: no `cache = self._cache` load")
-        unpack = (None, None, 0)          # pre-repair shape: `self._cache[fun]` looked up and stored through the attribute
-    wr_owner = False
-    if unpack[0] is not None:
-        for n in ast.walk(w):
-            if isinstance(n, ast.If) and isinstance(n.test, ast.Compare) and len(n.test.ops) == 1 \
-                    and isinstance(n.test.ops[0], ast.NotEq) and n.lineno > unpack[2]:
-                sides = [n.test.left, n.test.comparators[0]]
-                names = [extract.dotted(x) for x in sides if isinstance(x, ast.Name)]
-                if names == [unpack[0]] and any(is_ident_call(x) for x in sides) \
-                        and any(isinstance(x, ast.Return) and isinstance(x.value, ast.Call)
-                                and extract.dotted(x.value.func) == "fun" for b in n.body for x in ast.walk(b)) \
-                        and n.lineno < st_node.lineno and not n.orelse:
-                    wr_owner = True
-    if isinstance(tgt.value, ast.Name) and unpack[1] is not None and tgt.value.id != unpack[1]:
-        raise NotRecognised("wrapper: the store does not go into the dict that was looked up")
-    if act_owner != wr_owner or (unpack[0] is not None) != act_owner:
-        raise NotRecognised("memoize_when_activated: cache_activate and wrapper disagree about the owner tag")
-    return {"storeReloads": reloads, "storeGuard": guard, "delSwallows": del_guard, "cacheOwnerOnly": act_owner}
+    def activate_tags_owner(self):
+        a = self.part("cache_activate")
+        binds = [s for s in ast.walk(a) if isinstance(s, ast.Assign) and extract.dotted(s.targets[0]).endswith("._cache")]
+        if len(binds) != 1:
+            return "other"
+        val = binds[0].value
+        if isinstance(val, ast.Dict) and not val.keys:
+            return "dict"
+        if isinstance(val, ast.Tuple) and len(val.elts) == 2 and self._is_ident_call(val.elts[0]) \
+                and isinstance(val.elts[1], ast.Dict) and not val.elts[1].keys:
+            return "tagged"
+        return "other"
+
+    def owner_test_position(self):
+        """where the wrapper decides that the caller is not the cache's owner:
+        "before-lookup"  `owner, cache = self._cache` … `if owner != get_ident(): return fun(self)` as a statement of the
+                         wrapper's own body that precedes the statement containing the `cache[fun]` lookup — what the
+                         models' bypass at the attribute load (f0 / p0 / w0) stands for;
+        "after-lookup"   such a test exists, but only at or after the lookup (e.g. inside `except KeyError:`: foreign
+                         threads would still get HITS);
+        "none"           no such test."""
+        w = self.part("wrapper")
+        owner, dict_local, i_load = self._load()
+        if owner is None:
+            return "none"
+
+        def is_test(n):
+            if not (isinstance(n, ast.If) and isinstance(n.test, ast.Compare) and len(n.test.ops) == 1
+                    and isinstance(n.test.ops[0], ast.NotEq) and not n.orelse):
+                return False
+            sides = [n.test.left, n.test.comparators[0]]
+            names = [x.id for x in sides if isinstance(x, ast.Name)]
+            return (names == [owner] and any(self._is_ident_call(x) for x in sides)
+                    and any(isinstance(x, ast.Return) and isinstance(x.value, ast.Call) and extract.dotted(x.value.func) == "fun"
+                            for b in n.body for x in ast.walk(b)))
+
+        def has_lookup(st):
+            return any(isinstance(n, ast.Subscript) and isinstance(n.ctx, ast.Load) and extract.dotted(n.slice) == "fun"
+                       for n in ast.walk(st))
+        i_lookup = next((i for i, st in enumerate(w.body) if has_lookup(st)), None)
+        i_test = next((i for i, st in enumerate(w.body) if is_test(st)), None)
+        if i_test is not None and i_lookup is not None and i_load < i_test < i_lookup:
+            return "before-lookup"
+        if any(is_test(n) for n in ast.walk(w)):
+            return "after-lookup"
+        return "none"
+
+    def cache_owner_only(self):
+        return self.activate_tags_owner() == "tagged" and self.owner_test_position() == "before-lookup"
+
+    def owner_shape_consistent(self):
+        """tagged dict ⇔ the wrapper unpacks a pair (otherwise every call under an active cache raises)"""
+        owner, dict_local, _ = self._load()
+        tag = self.activate_tags_owner()
+        if tag == "tagged":
+            return owner is not None
+        if tag == "dict":
+            return owner is None
+        return False
 
 
 def facts(snap, F):
@@ -421,7 +507,7 @@ def facts(snap, F):
         return get("front", lambda: Front(init_tree()))
 
     def wf():
-        return get("wf", lambda: wrapper_facts(extract.parse_module(snap, "_common.py")))
+        return get("wf", lambda: Wrapper(extract.parse_module(snap, "_common.py")))
 
     def osf():
         return get("osf", lambda: front().oneshot_facts())
@@ -441,9 +527,7 @@ def facts(snap, F):
                 d = extract.dotted(n.func)
                 if d.startswith("self.") and d.endswith("." + which):
                     h = d.split(".")[1]
-                    if h not in lx.helper_src:
-                        raise NotRecognised("%s is not a memoised helper" % h)
-                    out.append(lx.helper_src[h])
+                    out.append(lx.helper_src.get(h, "?" + h))      # not a memoised helper: unknown token, cfg_lists_complete fails
         return out
 
     F.try_add("memoProc", "List String", lambda: strs(sorted(linux().helper_src.values())),
@@ -470,16 +554,23 @@ def facts(snap, F):
               "oneshot(): the deactivations sit in a finally clause")
     F.try_add("underLock", "Bool", lambda: L.lean_bool(osf()["underLock"]),
               "oneshot(): whole body under `with self._lock`")
-    F.try_add("delSwallows", "Bool", lambda: L.lean_bool(wf()["delSwallows"]),
+    F.try_add("delSwallows", "Bool", lambda: L.lean_bool(wf().del_swallows() and wf().deactivate_deletes()),
               "cache_deactivate: `del proc._cache` wrapped in except AttributeError: pass")
-    F.try_add("storeReloads", "Bool", lambda: L.lean_bool(wf()["storeReloads"]),
+    F.try_add("storeReloads", "Bool", lambda: L.lean_bool(wf().store_reloads()),
               "wrapper case 3 stores through a re-loaded self._cache (true) or into the dict it looked up (false)")
-    F.try_add("storeGuard", "Bool", lambda: L.lean_bool(wf()["storeGuard"] or not wf()["storeReloads"]),
+    F.try_add("storeGuard", "Bool", lambda: L.lean_bool(wf().store_guard() or not wf().store_reloads()),
               "the case-3 store cannot let an AttributeError escape (guarded, or no attribute load at all)")
 
-    F.try_add("cacheOwnerOnly", "Bool", lambda: L.lean_bool(wf()["cacheOwnerOnly"]),
+    F.try_add("cacheOwnerOnly", "Bool", lambda: L.lean_bool(wf().cache_owner_only()),
               "cache_activate tags the dict with the activating thread (`proc._cache = (get_ident(), {})`) and the wrapper "
-              "consults / fills the cache only when `owner == get_ident()`; any other thread calls fun(self) directly")
+              "unpacks it and tests `if owner != get_ident(): return fun(self)` as a statement of its own body BEFORE the "
+              "`cache[fun]` lookup: any other thread neither consults nor fills the cache")
+    F.try_add("ownerTest", "String", lambda: L.lean_str(wf().owner_test_position()),
+              "where the wrapper's owner test sits: before-lookup / after-lookup (foreign threads would still get hits) / none")
+    F.try_add("ownerShapeConsistent", "Bool", lambda: L.lean_bool(wf().owner_shape_consistent()),
+              "cache_activate binds a (thread id, dict) pair iff the wrapper unpacks a pair from self._cache")
+    F.try_add("lookupHandles", "List String", lambda: strs(wf().lookup_handles()),
+              "of AttributeError (case 2: no cache) and KeyError (case 3: no entry), the ones the wrapper's try statements catch")
 
     def lock_reentrant():
         fn = front().defs.get("_init") or front().defs["__init__"]
@@ -528,23 +619,72 @@ def facts(snap, F):
     F.try_add("guardRaisesWhenGone", "Bool", lambda: L.lean_bool(guard_gone()),
               "_raise_if_pid_reused(): `if self._gone: raise NoSuchProcess` (the guard refuses a process seen gone)")
 
+    def meth_rows():
+        """per method: (front, guard, srcs, zprobe, alt) or the reason it could not be described"""
+        def build():
+            lx, fr = linux(), front()
+            rows = {}
+            for name in MODELLED:
+                try:
+                    f, guard, plat = fr.describe(name)
+                    lx.alt_log = []
+                    srcs = lx.sources(plat)
+                    alts = list(lx.alt_log)
+                    if not srcs:
+                        raise NotRecognised("%s: no source found" % name)
+                    # the tried-first file must stand for the FIRST source of the row (Meth.eff replaces the head)
+                    if len(alts) > 1 or (alts and alts[0][1] != srcs[0]):
+                        raise NotRecognised("%s: try/except-ENOENT shape not modelled: %r" % (name, alts))
+                    rows[name] = (f, guard, srcs, lx.zprobe(plat), alts[0][0] if alts else None)
+                except (NotRecognised, KeyError, AttributeError, IndexError) as e:
+                    rows[name] = str(e) or type(e).__name__
+            return rows
+        return get("meth_rows", build)
+
     def meths():
         rows = []
-        lx, fr = linux(), front()
         for name in MODELLED:
-            f, guard, plat = fr.describe(name)
-            srcs = lx.sources(plat)
-            if not srcs:
-                raise NotRecognised("%s: no source found" % name)
-            rows.append("(%s, %s, %s, %s, %s)" % (L.lean_str(name), L.lean_str(f), L.lean_bool(guard),
-                                                 strs(srcs), L.lean_bool(lx.zprobe(plat))))
+            r = meth_rows()[name]
+            if isinstance(r, str):
+                # a row the translator cannot describe: unknown file token -> parseMeth drops it -> cfg_meths_complete fails
+                rows.append("(%s, %s, %s, %s, %s)" % (L.lean_str(name), L.lean_str(""), L.lean_bool(False),
+                                                     strs(["?" + r[:60]]), L.lean_bool(False)))
+            else:
+                f, guard, srcs, zp, _ = r
+                rows.append("(%s, %s, %s, %s, %s)" % (L.lean_str(name), L.lean_str(f), L.lean_bool(guard), strs(srcs), L.lean_bool(zp)))
         return "[" + ", ".join(rows) + "]"
     F.try_add("meths", "List (String × String × Bool × List String × Bool)", meths,
               "modelled public methods: (name, front-end memo function or \"\", calls _raise_if_pid_reused, files read in order, zombie probe on empty data)")
 
-    def valid():
-        return strs(snap_valid_names(snap))
-    F.try_add("validNames", "List String", valid, "psutil._as_dict_attrnames (runtime dump)")
+    def meth_alt():
+        out = []
+        for name in MODELLED:
+            r = meth_rows()[name]
+            if not isinstance(r, str) and r[4] is not None:
+                out.append("(%s, %s)" % (L.lean_str(name), L.lean_str(r[4])))
+        return "[" + ", ".join(out) + "]"
+    F.try_add("methAlt", "List (String × String)", meth_alt,
+              "methods whose platform code tries another file first (`try: <read it> except (ProcessLookupError, FileNotFoundError): "
+              "<read the first file of the row>`): (method, tried-first file)")
+
+    def dump():
+        return get("dump", lambda: snap_runtime_dump(snap))
+    F.try_add("validNames", "List String", lambda: strs(dump()["valid"]), "psutil._as_dict_attrnames (runtime dump)")
+    F.try_add("publicAttrs", "List String", lambda: strs(dump()["public"]),
+              "names of dir(psutil.Process) that do not start with an underscore (runtime dump)")
+
+    def excluded():
+        """string constants of the exclusion set in the comprehension that defines `_as_dict_attrnames` (static)"""
+        for n in init_tree().body:
+            if isinstance(n, ast.Assign) and extract.dotted(n.targets[0]) == "_as_dict_attrnames":
+                sets = [x for x in ast.walk(n.value) if isinstance(x, (ast.Set, ast.List, ast.Tuple))]
+                names = sorted({e.value for x in sets for e in x.elts if isinstance(e, ast.Constant) and isinstance(e.value, str)})
+                return names
+        raise NotRecognised("_as_dict_attrnames assignment not found")
+    F.try_add("asDictExcluded", "List String", lambda: strs(excluded()),
+              "the names `_as_dict_attrnames` excludes from dir(Process) (string constants of its set comprehension)")
+    F.try_add("asDictUsesOneshot", "Bool", lambda: L.lean_bool(adf()["usesOneshot"]),
+              "as_dict: the loop over the names runs inside `with self.oneshot()`")
     F.try_add("validatesFirst", "Bool", lambda: L.lean_bool(adf()["validatesFirst"]),
               "as_dict: TypeError/ValueError checks precede `with self.oneshot()`")
     F.try_add("adCatches", "List String", lambda: strs(adf()["adCatches"]),
@@ -557,12 +697,13 @@ def facts(snap, F):
               "as_dict: `ls = attrs or valid_names`")
 
 
-def snap_valid_names(snap):
+def snap_runtime_dump(snap):
     """Runtime dump in a sub-interpreter (the check's own interpreter imports psutil later)."""
     import json
     import subprocess
     code = ("import sys, json; sys.path.insert(0, %r); import psutil; "
-            "print(json.dumps(sorted(psutil._as_dict_attrnames)))" % snap.dir)
+            "print(json.dumps({'valid': sorted(psutil._as_dict_attrnames), "
+            "'public': sorted(x for x in dir(psutil.Process) if not x.startswith('_'))}))" % snap.dir)
     r = subprocess.run(["/venv/bin/python", "-c", code], stdout=subprocess.PIPE, stderr=subprocess.PIPE,
                        text=True, timeout=60)
     if r.returncode != 0:
